@@ -160,4 +160,66 @@ example : ∑ k ∈ (Finset.univ : Finset (Fin 2)).erase 0,
   simp [Finset.sum_erase, Fin.sum_univ_two]
   norm_num
 
+/-! ### the Bayesian form of the algebraic calculator -/
+section Bayes
+open Matrix
+variable {K : Type*} [Field K] {m p : Type*} [Fintype m] [Fintype p] [DecidableEq m] [DecidableEq p]
+
+/-- **Bayesian form of the calculator** (Gaussian prior `N(μ, S)` on the drift coefficients).  The calculator works
+with the posterior precision `P = XᵀΣ⁻¹X + S⁻¹`: the weights of the data in its estimate are
+`w = Σ⁻¹Σ₀ + Σ⁻¹X P⁻¹ d` and the weights of the prior mean are `c = S⁻¹P⁻¹ d`, with `d = X₀ − XᵀΣ⁻¹Σ₀`.
+These are exactly the simple-kriging weights under the covariance `Σ + X S Xᵀ` (right-hand side
+`Σ₀ + X S X₀`), and the prior mean receives what is left of the drift at the target: `c = X₀ − Xᵀw` -/
+theorem bayes_weights (Sg : Matrix m m K) (X : Matrix m p K) (S : Matrix p p K) (s0 : m → K) (x0 : p → K)
+    (hS : IsUnit Sg.det) (hP : IsUnit S.det) (hQ : IsUnit (Xᵀ * Sg⁻¹ * X + S⁻¹).det) :
+    let P := Xᵀ * Sg⁻¹ * X + S⁻¹
+    let d := x0 - Xᵀ *ᵥ (Sg⁻¹ *ᵥ s0)
+    let w := Sg⁻¹ *ᵥ s0 + Sg⁻¹ *ᵥ (X *ᵥ (P⁻¹ *ᵥ d))
+    let c := S⁻¹ *ᵥ (P⁻¹ *ᵥ d)
+    (Sg + X * S * Xᵀ) *ᵥ w = s0 + X *ᵥ (S *ᵥ x0) ∧ c = x0 - Xᵀ *ᵥ w := by
+  intro P d w c
+  have cancelS : ∀ v : m → K, Sg *ᵥ (Sg⁻¹ *ᵥ v) = v := fun v => by
+    rw [Matrix.mulVec_mulVec, Matrix.mul_nonsing_inv _ hS, Matrix.one_mulVec]
+  have cancelP : ∀ v : p → K, S *ᵥ (S⁻¹ *ᵥ v) = v := fun v => by
+    rw [Matrix.mulVec_mulVec, Matrix.mul_nonsing_inv _ hP, Matrix.one_mulVec]
+  set u := P⁻¹ *ᵥ d with hu
+  have h1 : P *ᵥ u = d := by
+    rw [hu, Matrix.mulVec_mulVec, Matrix.mul_nonsing_inv _ hQ, Matrix.one_mulVec]
+  have h1' : (Xᵀ * Sg⁻¹ * X) *ᵥ u + S⁻¹ *ᵥ u = d := by rw [← Matrix.add_mulVec]; exact h1
+  have hXw : Xᵀ *ᵥ w = Xᵀ *ᵥ (Sg⁻¹ *ᵥ s0) + (Xᵀ * Sg⁻¹ * X) *ᵥ u := by
+    show Xᵀ *ᵥ (Sg⁻¹ *ᵥ s0 + Sg⁻¹ *ᵥ (X *ᵥ u)) = _
+    rw [Matrix.mulVec_add]
+    congr 1
+    rw [Matrix.mulVec_mulVec, Matrix.mulVec_mulVec]
+  have hc : c = x0 - Xᵀ *ᵥ w := by
+    show S⁻¹ *ᵥ u = _
+    rw [hXw]
+    have : S⁻¹ *ᵥ u = d - (Xᵀ * Sg⁻¹ * X) *ᵥ u := by rw [← h1']; abel
+    rw [this]
+    show x0 - Xᵀ *ᵥ (Sg⁻¹ *ᵥ s0) - _ = _
+    abel
+  refine ⟨?_, hc⟩
+  have hSw : Sg *ᵥ w = s0 + X *ᵥ u := by
+    show Sg *ᵥ (Sg⁻¹ *ᵥ s0 + Sg⁻¹ *ᵥ (X *ᵥ u)) = _
+    rw [Matrix.mulVec_add, cancelS, cancelS]
+  have hXSX : (X * S * Xᵀ) *ᵥ w = X *ᵥ (S *ᵥ x0) - X *ᵥ u := by
+    rw [← Matrix.mulVec_mulVec, ← Matrix.mulVec_mulVec]
+    have : Xᵀ *ᵥ w = x0 - c := by rw [hc]; abel
+    rw [this, Matrix.mulVec_sub, Matrix.mulVec_sub]
+    show _ - X *ᵥ (S *ᵥ (S⁻¹ *ᵥ u)) = _
+    rw [cancelP]
+  rw [Matrix.add_mulVec, hSw, hXSX]
+  abel
+
+omit [DecidableEq m] [DecidableEq p] in
+/-- … hence the Bayesian estimate `wᵀz + cᵀμ` is the prior drift at the target plus the simple kriging of the
+residuals `z − Xμ` with those weights -/
+theorem bayes_estimate (X : Matrix m p K) (w z : m → K) (c x0 mu : p → K) (hc : c = x0 - Xᵀ *ᵥ w) :
+    w ⬝ᵥ z + c ⬝ᵥ mu = x0 ⬝ᵥ mu + w ⬝ᵥ (z - X *ᵥ mu) := by
+  have h : (Xᵀ *ᵥ w) ⬝ᵥ mu = w ⬝ᵥ (X *ᵥ mu) := by
+    rw [Matrix.mulVec_transpose, ← Matrix.dotProduct_mulVec]
+  rw [hc, sub_dotProduct, dotProduct_sub, h]
+  ring
+
+end Bayes
 end GstProofs.C04
